@@ -1244,6 +1244,18 @@ class MemoryCache:
             return self.refs[cache_key]  # May raise KeyError
 
     @_synchronized
+    def put_memento_if_absent(self, memento: Memento):
+        """
+        Caches a memento that was just read from storage, without its result, unless the call
+        has been cached in the meantime: the cache lookup that missed and the read from storage
+        are not atomic, and an entry put by another thread since then (by a memoize or a read,
+        possibly with the result) must not be replaced by this older, result-less one.
+
+        """
+        if self._cache_key_for_memento(memento) not in self.cache:
+            self.put(memento, None, has_result=False)
+
+    @_synchronized
     def is_memoized(self, fn_reference: FunctionReference, arg_hash: str) -> bool:
         cache_key = self._cache_key_for_fn(fn_reference, arg_hash)
         if cache_key in self.cache:
@@ -1399,7 +1411,7 @@ class StorageBackendBase(StorageBackend, ABC):
                 results.append(qr)
                 # Store only the memento in the cache
                 if self._memory_cache and qr is not None:
-                    self._memory_cache.put(qr, None, has_result=False)
+                    self._memory_cache.put_memento_if_absent(qr)
                 query_index += 1
             else:
                 results.append(cr)
